@@ -43,6 +43,8 @@ func allFamilies(tier string) []*goprog.Family {
 		f1Family(tier),
 		listFamily("F2.strings", f2Cases(tier)),
 		f3Family(tier),
+		f3bFamily(),
+		listFamily("F1.int-faults", f1FaultCases()),
 		f5Family(tier),
 		f7Family(),
 		f8Recursion(tier),
